@@ -9,6 +9,7 @@ import (
 	"flag"
 	"fmt"
 	"os"
+	"os/exec"
 	"path/filepath"
 	"runtime/debug"
 	"runtime/pprof"
@@ -318,6 +319,20 @@ func check(spec *PropSpec, tier, root string, verbose bool, replayOb *Ob, writeE
 	fmt.Printf("%s tier=%s configs=%s packages=%d functions=%d rules=%d obligations=%d discharged=%d violations=%d (known %d) undecided=%d residual=%d wall=%.1fs\n",
 		spec.ID, tier, strings.Join(cfgNames, ","), npkgs, nfuncs, len(spec.Rules), len(all), nOK, nViol, len(knownSeen), nUndec, nRes, time.Since(start).Seconds())
 
+	// thorough tier: positive controls — seeded variants this check is known to
+	// catch must still be caught (a miss is a checker regression, exit 2)
+	var controls []string
+	if tier == "thorough" && exit == 0 && !fail {
+		cres, cfail := runControls(spec.ID, root)
+		controls = cres
+		for _, l := range cres {
+			fmt.Println(l)
+		}
+		if cfail {
+			fmt.Printf("CONTROL-MISSED property=%s: a seeded variant that this check must report was not reported: checker regression\n", spec.ID)
+			exit = 2
+		}
+	}
 	if writeEv {
 		var samples []Ob
 		// a spread of obligations: every violation, then up to 14 others from distinct rules
@@ -357,6 +372,7 @@ func check(spec *PropSpec, tier, root string, verbose bool, replayOb *Ob, writeE
 				"samples":            samples,
 				"known_findings_seen": knownSeen,
 				"build_configs":      cfgNames,
+				"positive_controls":  controls,
 				"packages_analysed":  npkgs,
 				"functions_analysed": nfuncs,
 				"notes":              notes,
@@ -385,4 +401,70 @@ func seedEnv() int {
 	var n int
 	fmt.Sscanf(os.Getenv("VERIF_SEED"), "%d", &n)
 	return n
+}
+
+// runControls applies each seeded variant whose meta.json lists this property
+// as primary target (breaks_property) and as detected, to a scratch copy of
+// the repository, and requires the quick check to report a violation there.
+func runControls(prop, root string) ([]string, bool) {
+	vd := verifDir()
+	dirs, _ := filepath.Glob(filepath.Join(vd, "seeded", "*", "meta.json"))
+	sort.Strings(dirs)
+	var out []string
+	failed := false
+	exe, _ := os.Executable()
+	for _, mp := range dirs {
+		b, err := os.ReadFile(mp)
+		if err != nil {
+			continue
+		}
+		var meta struct {
+			ID     string `json:"id"`
+			Breaks string `json:"breaks_property"`
+			Det    struct {
+				Checks []string `json:"checks"`
+			} `json:"detected_by"`
+		}
+		if json.Unmarshal(b, &meta) != nil || meta.Breaks != prop {
+			continue
+		}
+		expected := false
+		for _, c := range meta.Det.Checks {
+			if c == prop {
+				expected = true
+			}
+		}
+		if !expected {
+			continue
+		}
+		tmp, err := os.MkdirTemp("", "jpcontrol")
+		if err != nil {
+			continue
+		}
+		cp := exec.Command("cp", "-a", root+"/.", tmp)
+		if err := cp.Run(); err != nil {
+			os.RemoveAll(tmp)
+			continue
+		}
+		os.RemoveAll(filepath.Join(tmp, ".git"))
+		ap := exec.Command("git", "apply", filepath.Join(filepath.Dir(mp), "patch.diff"))
+		ap.Dir = tmp
+		if err := ap.Run(); err != nil {
+			out = append(out, fmt.Sprintf("CONTROL %s: skipped (patch does not apply to the current tree)", meta.ID))
+			os.RemoveAll(tmp)
+			continue
+		}
+		run := exec.Command(exe, "-repo", tmp, "-property", prop, "-tier", "quick", "-no-evidence")
+		run.Env = append(os.Environ(), "VERIF_DIR="+vd)
+		res, _ := run.CombinedOutput()
+		code := run.ProcessState.ExitCode()
+		os.RemoveAll(tmp)
+		if code == 1 && strings.Contains(string(res), "VIOLATION property="+prop) {
+			out = append(out, fmt.Sprintf("CONTROL %s: reported (exit 1)", meta.ID))
+		} else {
+			out = append(out, fmt.Sprintf("CONTROL %s: NOT reported (exit %d)", meta.ID, code))
+			failed = true
+		}
+	}
+	return out, failed
 }
